@@ -89,7 +89,11 @@ def fresh(shape):
     if shape == "aliased":
         lst = [o, o]
     lst20 = [stix2.parse(copy.deepcopy(od)), copy.deepcopy(od)]
-    a = dict(d=d, o=o, sco=sco, od=od, lst20=lst20, marks=marks, sels=sels, lst=lst, red=RED, pats=["[a:b = 1]", "[a:b = 2] OR [a:b = 1]"],
+    # content the stores keep as the CALLER'S OWN dicts (no registered class): two versions of one id, alone, in a list and in a bundle dict
+    unreg = [dict(type="x-unreg", spec_version="2.1", id="x-unreg--" + U + "6", created=TS, modified=TS, name="u1", nested={"k": [1, {"z": 2}]}),
+             dict(type="x-unreg", spec_version="2.1", id="x-unreg--" + U + "6", created=TS, modified="2020-01-02T00:00:00.000Z", name="u2", nested={"k": [3]})]
+    unreg_bundle = {"type": "bundle", "id": "bundle--" + U + "7", "objects": [copy.deepcopy(unreg[0]), copy.deepcopy(unreg[1])]}
+    a = dict(d=d, o=o, sco=sco, od=od, lst20=lst20, unreg=unreg, unreg_bundle=unreg_bundle, marks=marks, sels=sels, lst=lst, red=RED, pats=["[a:b = 1]", "[a:b = 2] OR [a:b = 1]"],
              rel=dict(type="relationship", spec_version="2.1", id="relationship--" + U + "3", created=TS, modified=TS, relationship_type="uses", source_ref=d["id"], target_ref="tool--" + U + "4"),
              defaults={"external_references": [copy.deepcopy(ext) if shape != "noncanonical-hashes" else {"source_name": "s", "url": "u"}], "object_marking_refs": [GREEN.id]},
              filters=[["labels", "in", list(sels)], ["name", "=", "n"]], opts={"pretty": True, "indent": 2})
@@ -195,6 +199,13 @@ def ops():
         "store:memsource-memsink-init": lambda a: (MemorySource(a["lst"]), MemorySink(a["lst"])),
         "store:memstore-add-query": lambda a: (lambda s: (s.add(a["lst"]), s.query(F(a)), s.get(a["o"].id), s.all_versions(a["o"].id)))(MemoryStore()),
         "store:memstore-shared-with-bundle": lambda a: (lambda s, b: (s.add(b), s.add(a["o"]), s.query([])))(MemoryStore(), stix2.v21.Bundle(objects=a["lst"], allow_custom=True)),
+        "store:memstore-unregistered-versions": lambda a: (lambda s: (s.add(a["unreg"][0]), s.add(a["unreg"][1]), s.all_versions(a["unreg"][0]["id"]), s.get(a["unreg"][0]["id"]), s.query(F(a))))(MemoryStore()),
+        "store:memstore-unregistered-versions-reverse": lambda a: (lambda s: (s.add(a["unreg"][1]), s.add(a["unreg"][0]), s.query([])))(MemoryStore()),
+        "store:memstore-init-unregistered-list": lambda a: MemoryStore(a["unreg"]).query([]),
+        "store:memstore-add-unregistered-bundle": lambda a: (lambda s: (s.add(a["unreg_bundle"]), s.query([])))(MemoryStore()),
+        "store:memsink-memsource-unregistered": lambda a: (MemorySink(a["unreg"]), MemorySource(a["unreg_bundle"]).all_versions(a["unreg"][0]["id"])),
+        "store:fs-unregistered-versions": lambda a: (lambda s: (s.add(a["unreg"][0]), s.add(a["unreg"][1]), s.all_versions(a["unreg"][0]["id"]), s.query(F(a))))(FileSystemStore(fsd(), allow_custom=True)),
+        "store:composite-unregistered": lambda a: (lambda c: (c.add_data_sources([MemorySource(a["unreg"][:1]), MemorySource(a["unreg"][1:])]), c.all_versions(a["unreg"][0]["id"]), c.get(a["unreg"][0]["id"])))(CompositeDataSource()),
         "store:memstore-save-load": lambda a: (lambda s, p: (s.save_to_file(p), MemoryStore().load_from_file(p)))(MemoryStore(a["lst"][:1]), os.path.join(fsd(), "x.json")),
         "store:fs-add-get-query": lambda a: (lambda s: (s.add(a["lst"][:1]), s.get(a["o"].id), s.query(F(a)), s.all_versions(a["o"].id)))(FileSystemStore(fsd(), allow_custom=True)),
         "store:fs-add-dict-and-text": lambda a: (lambda s: (s.add(a["rel"]), s.add(json.dumps(a["d"]))))(FileSystemStore(fsd(), allow_custom=True)),
